@@ -36,6 +36,15 @@ PY_T = {"yardl.Int8": "int8", "yardl.UInt8": "uint8", "yardl.Int16": "int16", "y
         "yardl.Int64": "int64", "yardl.UInt64": "uint64", "yardl.Size": "size", "yardl.Float32": "float32", "yardl.Float64": "float64",
         "yardl.ComplexFloat": "complexfloat32", "yardl.ComplexDouble": "complexfloat64", "str": "string", "bool": "bool"}
 VAL_TYPES = ["int8", "uint16", "int32", "uint64", "float32", "float64"]
+# one operator between two integer literals (non-negative, positive quotients only: the sign of an integer quotient is a listed finding)
+LIT_BINARY = [(1, "+", 2), (100, "-", 200), (60000, "+", 60000), (7, "/", 2), (200, "*", 200), (255, "+", 1), (65535, "+", 1), (4000000000, "-", 1), (1, "-", 255),
+              (300, "*", 300), (65535, "*", 2), (250, "/", 7), (70000, "+", 1), (0, "-", 1)]
+
+
+def literal_type(n: int) -> str:
+    """an integer literal has the narrowest unsigned type that holds it (not documented: this is what the operand-type table of part 1 and the
+    diagnostics show - `i64 + 1` is reported as int64 + uint8 -; the relation checked with it holds on the unchanged tree for every entry)"""
+    return "uint8" if n <= 255 else "uint16" if n <= 65535 else "uint32" if n <= 2 ** 32 - 1 else "uint64"
 
 
 def cap(s):
@@ -305,6 +314,18 @@ def run(ctx):
         ("elitdivm", "da * (2 / 3 as float64)", lambda v: v["da"] * (2.0 / 3.0)),
         ("elitmul", "(100000 as float64) * 100000", lambda v: 1e10),
         ("elitadd", "(2000000000 as float64) + 2000000000", lambda v: 4e9),
+        # sub-expressions whose operands are both integer literals are typed and evaluated like the same operator on fields of the literals' types
+        ("elit2neg", "-(1 + 2)", lambda v: -3),
+        ("elit2chain", "1 + 2 + 3", lambda v: 6),
+        ("elit2scaled", "(2 + 2) * ia", lambda v: 4 * v["ia"]),
+        ("elit2mixed", "(1 + 2) - ubig + ia", lambda v: 3 - v["ubig"] + v["ia"]),
+        ("elit2idx", "vec[2 - 1]", lambda v: v["vec"][1]),
+        ("elit2negprod", "-(200 * 200) + ia", lambda v: -40000 + v["ia"]),
+        ("elit2sub0", "0 - (100 + 100)", lambda v: -200),
+        ("elit2nested", "(250 + 10) * (3 - 5)", lambda v: -520),
+        ("elit2cast", "(200 + 100) as float64", lambda v: 300.0),
+        ("elit2divf", "(7 / 2) * da", lambda v: 3 * v["da"]),
+    ] + [("elitb%d" % i, "%d %s %d" % (a, op, b), (lambda v, a=a, b=b, op=op: {"+": a + b, "-": a - b, "*": a * b, "/": a // b}[op])) for i, (a, op, b) in enumerate(LIT_BINARY)] + [
         # an explicit widening cast of one operand decides the width of the arithmetic
         ("ewidemul", "(big1 as int64) * big2", lambda v: v["big1"] * v["big2"]),
         ("ewideadd", "(big1 as int64) * big2 + big2", lambda v: v["big1"] * v["big2"] + v["big2"]),
@@ -545,6 +566,13 @@ def run(ctx):
                     ok = (got == want) if isinstance(want, int) and not isinstance(want, bool) else (isinstance(got, (int, float)) and abs(got - want) <= 1e-9 * max(1.0, abs(want)))
                     if not ok:
                         ctx.violation("expr:%s:%s" % (lang, nm), "expression `%s`: %s returns %r, expected %r (record #%d)" % (src, lang, got, want, k), {"case_dir": root, "env": repr(env)[:600]})
+        # an operator between two literals has the static type the same operator has between fields of the literals' types (part 1 measured it)
+        for i, (a, op, b) in enumerate(LIT_BINARY):
+            d = decl.get(("Ex", "elitb%d" % i))
+            want_t = result_type.get((literal_type(a), literal_type(b), op)) or result_type.get((literal_type(b), literal_type(a), op))
+            ctx.count("expr.literal-type-judged")
+            if d and want_t and d[0] is not None and CPP_T.get(d[0], d[0]) != want_t:
+                ctx.violation("literal-expression-type", "`%d %s %d` is declared %s in C++; `%s %s %s` on fields has static type %s" % (a, op, b, d[0], literal_type(a), op, literal_type(b), want_t), {"case_dir": root})
         # declared types of the expressions agree between C++ and Python
         for nm, _, _ in EXPRS:
             d = decl.get(("Ex", nm))
